@@ -12,7 +12,7 @@ from .tlc import MachineryError
 
 # property -> (level, [engine module names])
 REGISTRY = {
-    "C01": ("model_checking", ["bloomfam", "expanding", "scale"]),
+    "C01": ("model_checking", ["bloomfam", "expanding", "scale", "proofs"]),
     "C02": ("model_checking", ["countmin", "scale"]),
     "C03": ("model_checking", ["cuckoo", "scale"]),
     "C04": ("model_checking", ["qf", "scale"]),
